@@ -16,11 +16,6 @@ echo "## demo without the change" >> $DEST/confirm.txt
 (cd $WT && eval "CARGO_NET_OFFLINE=true $DEMO" 2>&1 | grep -E "Summary|test result|panicked|assert|FAIL|PASS" | head -8) >> $DEST/confirm.txt
 git apply $OUT/patch.diff
 cat $DEST/confirm.txt
-echo "## checks against the change applied to /repo" > $DEST/checks.txt
-git -C /repo apply $OUT/patch.diff || { echo "patch does not apply to /repo" | tee -a $DEST/checks.txt; exit 4; }
-for i in 01 02 03 04 05 06 07 08 09 10 11 12 13 14 15 16 17 18 19 20; do
-  /verif/vcheck C$i > /tmp/seed_C$i.out 2>&1; rc=$?
-  if [ $rc -ne 0 ]; then echo "C$i rc=$rc" >> $DEST/checks.txt; grep -E "^  violated|^UNDECIDED|^ERROR" /tmp/seed_C$i.out | cut -c1-400 | head -6 >> $DEST/checks.txt; fi
-done
-git -C /repo checkout -- .
+echo "## checks against the change (applied to a scratch worktree of /repo's HEAD, tools/scratch_try.sh)" > $DEST/checks.txt
+SCRATCH_WT=/tmp/wt/S$P HEAD=6 /verif/tools/scratch_try.sh $OUT/patch.diff all | sed 's/^== //' >> $DEST/checks.txt
 cat $DEST/checks.txt
